@@ -74,10 +74,12 @@ struct Sess {
     reason: SyncReason,
     connect_pending: bool,
     accept_pending: bool,
+    /// one of its nodes has left the document since: the node's way of being done with it
+    abandoned: bool,
 }
 impl Sess {
     fn in_progress(&self) -> bool {
-        self.connect_pending && self.accept_pending
+        self.connect_pending && self.accept_pending && !self.abandoned
     }
 }
 
@@ -258,7 +260,7 @@ impl World {
                 }
                 let id = self.next_id;
                 self.next_id += 1;
-                self.sessions.push(Sess { id, dialer: x, acceptor: y, reason: r.reason, connect_pending: true, accept_pending: true });
+                self.sessions.push(Sess { id, dialer: x, acceptor: y, reason: r.reason, connect_pending: true, accept_pending: true, abandoned: false });
             }
             AcceptOutcome::Reject(reason) => {
                 self.replies.push(Reply { req: r, reason });
@@ -384,7 +386,7 @@ impl World {
                 let id = self.next_id;
                 self.next_id += 1;
                 // the accepting end finishes right now (below); the dialer's end stays in flight
-                self.sessions.push(Sess { id, dialer: x, acceptor: y, reason: r.reason, connect_pending: true, accept_pending: false });
+                self.sessions.push(Sess { id, dialer: x, acceptor: y, reason: r.reason, connect_pending: true, accept_pending: false, abandoned: false });
             }
             Some(AcceptOutcome::Reject(reason)) => {
                 if !self.syncing[y] && *reason != AbortReason::NotFound {
@@ -487,7 +489,9 @@ pub fn run(ctx: &mut Ctx) {
             };
             let n = w.nodes.len();
             w.oblig = vec![vec![None; n]; n];
-            let res = history(ctx, case, &mut rng, &mut w, &ns_secret).await;
+            // one history in eight is about leaving a document and joining it again while a session
+            // is in flight (added after seeded change agent-C11-7)
+            let res = if case % 8 == 5 { leave_history(ctx, case, &mut rng, &mut w, &ns_secret).await } else { history(ctx, case, &mut rng, &mut w, &ns_secret).await };
             ctx.eval();
             ctx.distinct("event_kind_sequences", h64(w.kinds.join(",").as_bytes()));
             if let Err((sig, detail)) = res {
@@ -823,5 +827,178 @@ async fn history(ctx: &mut Ctx, _case: u64, rng: &mut Rng, w: &mut World, ns_sec
         }
     }
     let _ = Arc::new(0);
+    Ok(())
+}
+
+
+/// A node leaves the document while a session with its peer is in flight and joins it again; the
+/// two ends of the old session finish, successfully or not, before or after the node is back, in
+/// any order. Whatever happens in between is left to the real handlers; what is judged is the
+/// statement's last clause: once nothing is in flight any more, both nodes are ready to start and
+/// to accept a session with each other (slots idle in the snapshot, and a fresh dial in either
+/// direction is decided, delivered and allowed).
+async fn leave_history(ctx: &mut Ctx, _case: u64, rng: &mut Rng, w: &mut World, ns_secret: &NamespaceSecret) -> Result<(), Viol> {
+    let ns = w.ns;
+    let n = w.nodes.len();
+    for i in 0..n {
+        w.syncing.push(true);
+        let _ = w.nodes[i].sync.import_namespace(Capability::Write(ns_secret.clone())).await;
+        let (tx, rx) = oneshot::channel();
+        let _ = w.nodes[i].actor.verif_on_actor_message(ToLiveActor::StartSync { namespace: ns, peers: vec![], reply: tx }).await;
+        match rx.await {
+            Ok(Ok(())) => {}
+            other => return Err(("start-sync-failed".into(), json!({"err": format!("{other:?}")}))),
+        }
+        let _ = w.nodes[i].actor.verif_take_dials();
+    }
+    let x = rng.below(2); // the node that leaves
+    let y = 1 - x;
+    let (d, a) = if rng.chance(1, 2) { (x, y) } else { (y, x) };
+    w.step += 1;
+    w.decide(d, a, *rng.pick(&[SyncReason::DirectJoin, SyncReason::NewNeighbor])).await?;
+    let Some(i) = w.reqs.iter().position(|r| r.from == d && r.to == a) else {
+        return Err(("fresh-dial-not-started-at-quiescence".into(), json!({"trace": w.trace})));
+    };
+    w.step += 1;
+    w.deliver(i).await?;
+    if !w.sessions.iter().any(|s| s.dialer == d && s.acceptor == a) {
+        return Err(("fresh-dial-not-accepted-at-quiescence".into(), json!({"trace": w.trace})));
+    }
+    // the node leaves
+    w.step += 1;
+    {
+        let (tx, rx) = oneshot::channel();
+        let _ = w.nodes[x].actor.verif_on_actor_message(ToLiveActor::Leave { namespace: ns, kill_subscribers: false, reply: tx }).await;
+        if !matches!(rx.await, Ok(Ok(()))) {
+            return Err(("leave-failed".into(), json!({"trace": w.trace})));
+        }
+        let _ = w.nodes[x].actor.verif_take_dials();
+    }
+    w.syncing[x] = false;
+    for s in w.sessions.iter_mut() {
+        s.abandoned = true;
+    }
+    w.trace.push(format!("{}: n{x} leaves the document ({} of the session in flight)", w.step, if x == d { "dialer" } else { "acceptor" }));
+    w.kinds.push("leave");
+    ctx.count("histories_with_leave_and_rejoin", 1);
+    let while_left = rng.below(3); // how many of the two ends finish while the node is away
+    let mut rejoined = false;
+    let mut ends_done = 0;
+    loop {
+        w.step += 1;
+        if !rejoined && ends_done >= while_left {
+            let (tx, rx) = oneshot::channel();
+            let _ = w.nodes[x].actor.verif_on_actor_message(ToLiveActor::StartSync { namespace: ns, peers: vec![], reply: tx }).await;
+            if !matches!(rx.await, Ok(Ok(()))) {
+                return Err(("start-sync-failed".into(), json!({"trace": w.trace})));
+            }
+            w.syncing[x] = true;
+            rejoined = true;
+            let dials = w.nodes[x].actor.verif_take_dials();
+            w.trace.push(format!("{}: n{x} joins the document again{}", w.step, if dials.is_empty() { String::new() } else { format!(", {} dial(s) to stored peers", dials.len()) }));
+            w.kinds.push("rejoin");
+            for (dns, peer, reason) in dials {
+                let Some(to) = w.nodes.iter().position(|nd| nd.id == peer) else { continue };
+                if dns != ns || to == x {
+                    return Err(("dial-to-unexpected-peer-or-document".into(), json!({"trace": w.trace})));
+                }
+                let id = w.next_id;
+                w.next_id += 1;
+                w.reqs.push(Req { id, from: x, to, reason, born: w.step });
+            }
+            continue;
+        }
+        // anything in flight, in any order
+        #[derive(Clone)]
+        enum Ev {
+            Deliver(usize),
+            Reply(usize),
+            AbortEnd(usize),
+            ConnectEnd(usize),
+            AcceptEnd(usize),
+        }
+        let mut evs = vec![];
+        if rejoined {
+            evs.extend((0..w.reqs.len()).map(Ev::Deliver));
+            evs.extend((0..w.replies.len()).map(Ev::Reply));
+            evs.extend((0..w.abort_ends.len()).map(Ev::AbortEnd));
+        }
+        for (i, s) in w.sessions.iter().enumerate() {
+            if s.connect_pending {
+                evs.push(Ev::ConnectEnd(i));
+            }
+            if s.accept_pending {
+                evs.push(Ev::AcceptEnd(i));
+            }
+        }
+        if evs.is_empty() {
+            if rejoined {
+                break;
+            }
+            ends_done = while_left;
+            continue;
+        }
+        match rng.pick(&evs).clone() {
+            Ev::Deliver(i) => w.deliver(i).await?,
+            Ev::Reply(i) => {
+                let r = w.replies.remove(i);
+                w.kinds.push("reply");
+                w.connect_finished(r.req.from, r.req.to, r.req.reason, Err(ConnectError::RemoteAbort(r.reason)), "decline reply").await?;
+            }
+            Ev::AbortEnd(i) => {
+                let a = w.abort_ends.remove(i);
+                w.kinds.push("abort-end");
+                let peer = w.nodes[a.peer].id;
+                w.accept_finished(a.at, a.peer, Err(AcceptError::Abort { peer, namespace: ns, reason: a.reason }), "declined request ends").await?;
+            }
+            Ev::ConnectEnd(i) => {
+                let (dx, dy, reason) = (w.sessions[i].dialer, w.sessions[i].acceptor, w.sessions[i].reason);
+                w.sessions[i].connect_pending = false;
+                let peer = w.nodes[dy].id;
+                let res = if rng.chance(1, 3) { Err(ConnectError::Sync { error: err() }) } else { Ok(finished(ns, peer)) };
+                w.kinds.push(if res.is_ok() { "connect-end-ok" } else { "connect-end-err" });
+                w.connect_finished(dx, dy, reason, res, if rejoined { "session end" } else { "session end while away" }).await?;
+                ends_done += 1;
+            }
+            Ev::AcceptEnd(i) => {
+                let (dx, dy) = (w.sessions[i].dialer, w.sessions[i].acceptor);
+                w.sessions[i].accept_pending = false;
+                let peer = w.nodes[dx].id;
+                let res = if rng.chance(1, 3) { Err(AcceptError::Sync { peer, namespace: Some(ns), error: err() }) } else { Ok(finished(ns, peer)) };
+                w.kinds.push(if res.is_ok() { "accept-end-ok" } else { "accept-end-err" });
+                w.accept_finished(dy, dx, res, if rejoined { "session end" } else { "session end while away" }).await?;
+                ends_done += 1;
+            }
+        }
+        w.sessions.retain(|s| s.connect_pending || s.accept_pending);
+        ctx.distinct("states", w.state_hash());
+        ctx.count("events", 1);
+    }
+    // quiescence: nothing in flight
+    ctx.count("quiescent_points", 1);
+    for (p, q) in [(x, y), (y, x)] {
+        if let Some(r) = w.running(p, q) {
+            return Err((
+                format!("slot-busy-with-nothing-in-flight[{}]", r.split('(').next().unwrap_or("").trim()),
+                json!({"node": p, "peer": q, "state": r, "after": "leave and rejoin", "trace": w.trace}),
+            ));
+        }
+    }
+    for (p, q) in [(x, y), (y, x)] {
+        w.step += 1;
+        w.decide(p, q, SyncReason::DirectJoin).await?;
+        let Some(i) = w.reqs.iter().position(|r| r.from == p && r.to == q) else {
+            return Err(("fresh-dial-not-started-at-quiescence".into(), json!({"trace": w.trace})));
+        };
+        w.deliver(i).await?;
+        let Some(si) = w.sessions.iter().position(|s| s.dialer == p && s.acceptor == q) else {
+            return Err(("fresh-dial-not-accepted-at-quiescence".into(), json!({"trace": w.trace})));
+        };
+        let (pp, pq) = (w.nodes[p].id, w.nodes[q].id);
+        w.sessions.remove(si);
+        w.connect_finished(p, q, SyncReason::DirectJoin, Ok(finished(ns, pq)), "probe").await?;
+        w.accept_finished(q, p, Ok(finished(ns, pp)), "probe").await?;
+        ctx.count("probes_completed", 1);
+    }
     Ok(())
 }
